@@ -11,6 +11,7 @@ CONSTANTS
   Planned = FALSE
   MaxPlan = 36
   InitStores <- StoresEmpty
+  LateStart = FALSE
   LogSched = FALSE
   KeepLog = TRUE
   OpMenu <- XOwn
